@@ -15,8 +15,13 @@ func siteName(i int32) string {
 	}
 	return "?"
 }
-func nSites() int          { return len(zzsimrt.Sites) }
-func mapRangesRun() uint64 { return zzsimrt.MapRanges }
+func nSites() int { return len(zzsimrt.Sites) }
+
+// onLibraryGoroutine: is the caller a goroutine the library started itself (P-go)? Such a
+// goroutine may reach a seam (call the caller's Logger, Writer, Memory): it is no party of
+// the simulation, so a yield there does not apply to it.
+func onLibraryGoroutine() bool { return zzsimrt.LiveChildren() != 0 && zzsimrt.InChild() }
+func mapRangesRun() uint64     { return zzsimrt.MapRanges }
 
 type globalVar struct {
 	Name string
@@ -30,3 +35,7 @@ func globals() []globalVar {
 	}
 	return out
 }
+
+// LibraryGoroutinePanics: how many goroutines started by the library have died of a panic so
+// far (in production each of them would have terminated the process).
+func LibraryGoroutinePanics() int { return int(zzsimrt.ChildPanics.Load()) }
